@@ -842,11 +842,22 @@ MUTANTS = [
       "                                                 v + 2 * nt))"),
      "C18-R2"),
     ("to_meshtri (crisscross): centre node indexed one too low",
-     (_QU, "            tnew = np.arange(np.max(self.t) + 1,\n"
-      "                             np.max(self.t) + 1 + self.t.shape[1],",
-      "            tnew = np.arange(np.max(self.t),\n"
-      "                             np.max(self.t) + self.t.shape[1],"),
+     (_QU, "            tnew = np.arange(self.p.shape[1],\n"
+      "                             self.p.shape[1] + self.t.shape[1],",
+      "            tnew = np.arange(self.p.shape[1] - 1,\n"
+      "                             self.p.shape[1] - 1 + self.t.shape[1],"),
      "C18-R2"),
+    ("to_meshtri (crisscross): centre nodes numbered from max(t) + 1 again",
+     (_QU, "            tnew = np.arange(self.p.shape[1],\n"
+      "                             self.p.shape[1] + self.t.shape[1],",
+      "            tnew = np.arange(np.max(self.t) + 1,\n"
+      "                             np.max(self.t) + 1 + self.t.shape[1],"),
+     "C18-R2"),
+    ("extrusion layers shifted by max(t) + 1 again",
+     ("skfem/mesh/mesh_tri_1.py",
+      "                                   self.t + self.p.shape[1] + diff))",
+      "                                   self.t + self.nvertices + diff))"),
+     "C18-R3"),
     ("hexahedron split: two tetrahedra overlap",
      (_HE, "            self.t[[2, 3, 4, 6]],", "            self.t[[0, 3, 4, "
       "6]],"), "C18-R2"),
